@@ -36,7 +36,9 @@ import (
 type Style struct {
 	// We declare a Style not as a string but as a struct wrapping a string
 	// to prevent construction of Style values through string conversion.
-	str string
+	// The field name differs from that of every other safe type, so that a value
+	// of one safe type cannot be converted to another one either.
+	style string
 }
 
 // StyleFromConstant constructs a Style with its underlying style set to the
@@ -98,7 +100,7 @@ func StyleFromConstant(style stringConstant) Style {
 
 // String returns the string form of the Style.
 func (s Style) String() string {
-	return s.str
+	return s.style
 }
 
 // StyleProperties contains property values for CSS properties whose names are
